@@ -121,6 +121,7 @@ impl CanonicalSocketAddr {
 }
 
 #[cfg(feature = "prometheus")]
+#[cfg(not(aquatic_verif))]
 pub fn spawn_prometheus_endpoint(
     addr: SocketAddr,
     timeout: Option<::std::time::Duration>,
@@ -171,6 +172,30 @@ pub fn spawn_prometheus_endpoint(
                     .await
                     .map_err(|err| anyhow::anyhow!("run prometheus exporter: :{:#?}", err))
             })
+        })
+        .context("spawn prometheus endpoint")?;
+
+    Ok(handle)
+}
+
+/// Simulation twin: the metrics worker is a simulated thread (set-up, periodic
+/// render tick, exporter loop are seam calls), so that its death can be injected
+#[cfg(feature = "prometheus")]
+#[cfg(aquatic_verif)]
+pub fn spawn_prometheus_endpoint(
+    addr: SocketAddr,
+    timeout: Option<::std::time::Duration>,
+    timeout_mask: Option<metrics_util::MetricKindMask>,
+) -> anyhow::Result<aquatic_verif_rt::thread::JoinHandle<anyhow::Result<()>>> {
+    use anyhow::Context;
+
+    let _ = (timeout, timeout_mask);
+
+    let handle = aquatic_verif_rt::thread::Builder::new()
+        .name("prometheus".into())
+        .spawn(move || {
+            aquatic_verif_rt::metrics::run_sim_endpoint(addr)
+                .context("build prometheus recorder and exporter")
         })
         .context("spawn prometheus endpoint")?;
 
